@@ -132,7 +132,8 @@ def run(ctx, replay=None):
     open(bf, "w").write("".join(behs))
     tf = ctx.path("trace.ndjson")
     ctx.record(exe, bf, tf)
-    rejs = ctx.validate("TraceBitmap", tf)
+    # the number of shards follows the size of the trace, not the load of the machine (a shard of more than ~60 MB takes TLC too long)
+    rejs = ctx.validate("TraceBitmap", tf, nshards=max(16, os.path.getsize(tf) // (48 << 20) + 1), timeout=3600)
     ctx.handle_rejections(rejs, behs, replay_fn)
     return ctx.finish(
         rule="behaviours = one per distinct (set,word-count) state pair of the exhaustive two-word register model (with the full query battery), "
